@@ -745,6 +745,10 @@ func c14PropsMatrix(r *core.Run) {
 			out, _ := exec.Command(self, "c14-props", format, "-", fmt.Sprint(k)).Output()
 			pristine[k] = strings.TrimSpace(string(out))
 		})
+		if r.Expired("property matrix") {
+			// the worker pool skips what is left once the deadline has passed: nothing to judge
+			return
+		}
 		for k := range pristine {
 			if len(pristine[k]) != 64 {
 				r.Violate(core.MkCase("C14", "props", map[string]interface{}{"Format": format, "First": -1, "Set": k}), "property matrix → writer fails in a fresh process", fmt.Sprintf("%s with properties %v alone", format, sets[k]), pristine[k], "a result")
@@ -897,72 +901,8 @@ func runC14(r *core.Run) {
 	} else {
 		r.Extra("sync_shim_overlay", "not active (plain build): scheduling points are call boundaries and sink/source call-backs only")
 	}
-	scns := c14Scenarios()
-	var before int64
-	if shimCalls != nil {
-		before = shimCalls()
-	}
-	totalExec := int64(0)
-	for si, sc := range scns {
-		sc := sc
-		solo := c14Solo(sc)
-		// outputs must be decodable by the reference (writers) — determinism vs. the reference content
-		for i, b := range sc.bodies {
-			if strings.HasSuffix(b.kind, "W") {
-				// the result is "<status>;...;" (3 / 2 / 4 fields for xzW / lzmaW / lzma2W) followed by the sink bytes
-				nf := map[string]int{"xzW": 3, "lzmaW": 2, "lzma2W": 4}[b.kind]
-				k := -1
-				for f := 0; f < nf; f++ {
-					k += 1 + bytes.IndexByte(solo[i][k+1:], ';')
-				}
-				stream := solo[i][k+1:]
-				var err error
-				switch b.kind {
-				case "xzW":
-					err = ref.DecodeXZ(stream, ref.XZOptions{}).Err
-				case "lzmaW":
-					err = ref.DecodeAlone(stream, false).Err
-				case "lzma2W":
-					err = ref.DecodeLZMA2(stream, 4096, false).Err
-				}
-				if err != nil {
-					r.Violate(core.MkCase("C14", "schedule", C14Case{Scenario: sc.name}), "solo "+b.kind+" output invalid", sc.name, err.Error(), "valid stream")
-				}
-			}
-		}
-		bd := bound
-		if len(sc.bodies) > 2 {
-			bd = bound - 1
-			r.Note(fmt.Sprintf("preemption bound %d for the 3-thread scenario (cost)", bd))
-		}
-		if strings.HasPrefix(sc.name, "sweep(") {
-			bd = bound - 1
-			r.Note(fmt.Sprintf("preemption bound %d for the error-path sweep scenario (about 200 scheduling points in one thread)", bd))
-		}
-		p := C14Case{Scenario: sc.name, Bound: bd}
-		e := &core.Explorer{Ctx: r, Name: "C14 " + sc.name, Bound: bd, Workers: 1, Body: func(x *core.X) { c14Exec(r, sc, solo, p, x) },
-			Stop: func() bool { return r.Expired("schedule exploration") }}
-		e.Run()
-		totalExec += e.Executions
-		r.State(fmt.Sprintf("scenario %d", si))
-		r.Trans(fmt.Sprintf("scenario %d: %d schedules, max depth %d", si, e.Executions, e.MaxDepth))
-		if !e.Complete {
-			r.CapHit("schedule exploration of " + sc.name + " stopped by the deadline")
-		}
-		// determinism: solo again after the concurrent runs
-		again := c14Solo(sc)
-		for i := range solo {
-			if !bytes.Equal(solo[i], again[i]) {
-				r.Violate(core.MkCase("C14", "schedule", C14Case{Scenario: sc.name}), "solo "+sc.bodies[i].kind+" output changed after other runs", sc.name, "bytes differ", "deterministic function of configuration and input")
-			}
-		}
-	}
-	r.Extra("schedules_explored", totalExec)
-	r.Extra("preemption_bound_completed", bound)
-	if shimCalls != nil {
-		r.Extra("sync_operations_hooked", shimCalls()-before)
-	}
-	r.Sample(map[string]interface{}{"scenario": scns[0].name, "schedule": "T0x3 T1x9 T0x12 T1x4 (thread x consecutive points)"})
+	// the phases that run in fresh processes first (minutes), the schedule exploration last: when the
+	// deadline cuts the run short it cuts the deepest preemption bound of the last scenarios only
 	// history check: all ordered pairs of the body menu, each pair in a fresh process
 	c14History(r)
 	c14PropsMatrix(r)
@@ -970,9 +910,11 @@ func runC14(r *core.Run) {
 	rb := os.Getenv("VERIF_RACE_BIN")
 	if rb == "" {
 		r.CapHit("race pass not run (VERIF_RACE_BIN unset)")
-		return
 	}
 	for _, procs := range []string{"2", "4", "16"} {
+		if rb == "" {
+			break
+		}
 		cmd := exec.Command(rb)
 		cmd.Env = append(os.Environ(), "GOMAXPROCS="+procs, "GORACE=halt_on_error=0")
 		out, err := cmd.CombinedOutput()
@@ -999,6 +941,9 @@ func runC14(r *core.Run) {
 	}
 	// cold starts: each combination in a fresh process (lazy initialisation on first use)
 	for k := range c14ColdCombos() {
+		if rb == "" {
+			break
+		}
 		cmd := exec.Command(rb, "cold", fmt.Sprint(k))
 		cmd.Env = append(os.Environ(), "GOMAXPROCS=4", "GORACE=halt_on_error=0")
 		out, err := cmd.CombinedOutput()
@@ -1022,5 +967,85 @@ func runC14(r *core.Run) {
 			r.CapHit("cold-start race pass failed to run: " + err.Error() + " " + firstLine(txt))
 		}
 	}
+	scns := c14Scenarios()
+	var before int64
+	if shimCalls != nil {
+		before = shimCalls()
+	}
+	totalExec := int64(0)
+	// iterative bounding across scenarios: the thorough tier first completes every scenario with the
+	// quick tier's bound, then raises it; the deadline can only cut the higher bound short
+	passes := []int{bound}
+	if th {
+		passes = []int{bound - 1, bound}
+	}
+	completed := 0
+	for _, bound := range passes {
+		allDone := true
+		for si, sc := range scns {
+			sc := sc
+			solo := c14Solo(sc)
+			// outputs must be decodable by the reference (writers) — determinism vs. the reference content
+			for i, b := range sc.bodies {
+				if strings.HasSuffix(b.kind, "W") {
+					// the result is "<status>;...;" (3 / 2 / 4 fields for xzW / lzmaW / lzma2W) followed by the sink bytes
+					nf := map[string]int{"xzW": 3, "lzmaW": 2, "lzma2W": 4}[b.kind]
+					k := -1
+					for f := 0; f < nf; f++ {
+						k += 1 + bytes.IndexByte(solo[i][k+1:], ';')
+					}
+					stream := solo[i][k+1:]
+					var err error
+					switch b.kind {
+					case "xzW":
+						err = ref.DecodeXZ(stream, ref.XZOptions{}).Err
+					case "lzmaW":
+						err = ref.DecodeAlone(stream, false).Err
+					case "lzma2W":
+						err = ref.DecodeLZMA2(stream, 4096, false).Err
+					}
+					if err != nil {
+						r.Violate(core.MkCase("C14", "schedule", C14Case{Scenario: sc.name}), "solo "+b.kind+" output invalid", sc.name, err.Error(), "valid stream")
+					}
+				}
+			}
+			bd := bound
+			if len(sc.bodies) > 2 {
+				bd = bound - 1
+				r.Note(fmt.Sprintf("preemption bound %d for the 3-thread scenario (cost)", bd))
+			}
+			if strings.HasPrefix(sc.name, "sweep(") {
+				bd = bound - 1
+				r.Note(fmt.Sprintf("preemption bound %d for the error-path sweep scenario (about 200 scheduling points in one thread)", bd))
+			}
+			p := C14Case{Scenario: sc.name, Bound: bd}
+			e := &core.Explorer{Ctx: r, Name: "C14 " + sc.name, Bound: bd, Workers: 1, Body: func(x *core.X) { c14Exec(r, sc, solo, p, x) },
+				Stop: func() bool { return r.Expired("schedule exploration") }}
+			e.Run()
+			totalExec += e.Executions
+			r.State(fmt.Sprintf("scenario %d", si))
+			r.Trans(fmt.Sprintf("scenario %d: %d schedules, max depth %d", si, e.Executions, e.MaxDepth))
+			if !e.Complete {
+				allDone = false
+				r.CapHit(fmt.Sprintf("schedule exploration of %s stopped by the deadline at bound %d", sc.name, bd))
+			}
+			// determinism: solo again after the concurrent runs
+			again := c14Solo(sc)
+			for i := range solo {
+				if !bytes.Equal(solo[i], again[i]) {
+					r.Violate(core.MkCase("C14", "schedule", C14Case{Scenario: sc.name}), "solo "+sc.bodies[i].kind+" output changed after other runs", sc.name, "bytes differ", "deterministic function of configuration and input")
+				}
+			}
+		}
+		if allDone {
+			completed = bound
+		}
+	}
+	r.Extra("schedules_explored", totalExec)
+	r.Extra("preemption_bound_completed_for_all_scenarios", completed)
+	if shimCalls != nil {
+		r.Extra("sync_operations_hooked", shimCalls()-before)
+	}
+	r.Sample(map[string]interface{}{"scenario": scns[0].name, "schedule": "T0x3 T1x9 T0x12 T1x4 (thread x consecutive points)"})
 	r.Assume("limit: preemption inside a library loop between two scheduling points and memory-model effects are outside the cooperative scheduler; unsynchronised accesses are covered by the separate -race pass")
 }
